@@ -26,10 +26,10 @@ INFO = {
              'generated. Distinct = distinct descriptor; non-trivial = points inside the domain, lines crossing >= 2 columns.'),
     'require': {
         'quick': {'counters': {'point_queries': 30000, 'points': 4000, 'points_3d': 2500, 'lines': 700, 'track_segments_checked': 3000,
-                               'node_aligned_points': 500, 'batches_after_moving_geometry': 12},
+                               'node_aligned_points': 500, 'batches_after_moving_geometry': 12, 'points_above_model_top_in_block': 100},
                   'seen': {'aid_combination': 8}, 'nontrivial': 3000},
         'thorough': {'counters': {'point_queries': 600000, 'points': 80000, 'points_3d': 40000, 'lines': 12000, 'track_segments_checked': 60000,
-                                  'node_aligned_points': 5000, 'batches_after_moving_geometry': 60},
+                                  'node_aligned_points': 5000, 'batches_after_moving_geometry': 60, 'points_above_model_top_in_block': 2000},
                      'seen': {'aid_combination': 8}, 'nontrivial': 60000},
     },
     'watchdog_s': {'quick': 1500, 'thorough': 7200},
@@ -298,6 +298,11 @@ def check_point_3d(ctx, geo, snap, p, exp_col, case):
     if exp_col is not None and exp_col.surface < top:
         zs.append(exp_col.surface + 0.3 * (top - exp_col.surface))          # above the ground of a cut column
         zs.append(exp_col.surface - 1e-3 * (exp_col.surface - bottom))
+    if exp_col is not None and exp_col.surface > top:
+        # ground raised above the top of the model: the top block reaches up to it
+        zs.append(top + 0.5 * (exp_col.surface - top))
+        zs.append(exp_col.surface - 1e-3 * (exp_col.surface - top))
+        zs.append(exp_col.surface + 1e-3 * (exp_col.surface - top))
     qt = geo.column_quadtree() if rng.random() < 0.3 else None
     for z in zs:
         if any(abs(z - l.bottom) < 1e-9 * max(1.0, abs(l.bottom)) for l in lays):
@@ -315,6 +320,7 @@ def check_point_3d(ctx, geo, snap, p, exp_col, case):
             else:
                 if z > top:
                     lay = lays[1]          # surface above the top of the model: the top block reaches up to it
+                    ctx.count('points_above_model_top_in_block')
                 else:
                     lay = next(l for l in lays[1:] if l.bottom < z <= l.top)
                 exp = geo.block_name(lay.name, exp_col.name)
